@@ -47,6 +47,7 @@ type AtomFn func(v ssa.Value, eval func(ssa.Value) AVal) (AVal, bool)
 type Interp struct {
 	Fn    *ssa.Function
 	Atom  AtomFn
+	trace []*ssa.BasicBlock
 	from  map[*ssa.BasicBlock]*ssa.BasicBlock
 	Err   string
 	steps int
@@ -86,6 +87,30 @@ func (it *Interp) eval(v ssa.Value) AVal {
 		}
 		return it.fail("phi evaluated without a predecessor")
 	case *ssa.UnOp:
+		if al, ok := x.X.(*ssa.Alloc); ok && x.Op == token.MUL {
+			// local cell (defer-spilled result, captured variable): the value
+			// is the last store on the executed path before this load
+			pos := -1
+			for i := len(it.trace) - 1; i >= 0; i-- {
+				if it.trace[i] == x.Block() {
+					pos = i
+					break
+				}
+			}
+			for i := pos; i >= 0; i-- {
+				b := it.trace[i]
+				end := len(b.Instrs)
+				if i == pos {
+					end = instrIndex(x)
+				}
+				for j := end - 1; j >= 0; j-- {
+					if st, ok := b.Instrs[j].(*ssa.Store); ok && st.Addr == al {
+						return it.eval(st.Val)
+					}
+				}
+			}
+			return it.fail("load of local %s before any store on the path", al.Comment)
+		}
 		if x.Op == token.NOT {
 			a := it.eval(x.X)
 			if a.K == 'b' {
@@ -153,8 +178,10 @@ func (it *Interp) eval(v ssa.Value) AVal {
 func (it *Interp) Run() []AVal {
 	it.from = map[*ssa.BasicBlock]*ssa.BasicBlock{}
 	it.Err = ""
+	it.trace = nil
 	b := it.Fn.Blocks[0]
 	for it.steps = 0; it.steps < 2000; it.steps++ {
+		it.trace = append(it.trace, b)
 		last := b.Instrs[len(b.Instrs)-1]
 		var next *ssa.BasicBlock
 		switch t := last.(type) {
